@@ -113,6 +113,12 @@ def _g1_one(ctx, f, is_main, acc):
                 l = linearize(strip_casts(m["args"][0]))
                 if l is not None:
                     allocs[alias[n["name"]]] = (l.scale(__import__("fractions").Fraction(1, esz[alias[n["name"]]])), n, f)
+    # the same with the allocation assigned after the declaration
+    for n, lv, op, rhs in stores(f.body):
+        if op == "=" and lv["k"] == "ref" and lv["name"] in alias and rhs is not None and is_call(strip_casts(rhs), "malloc"):
+            l = linearize(strip_casts(strip_casts(rhs)["args"][0]))
+            if l is not None:
+                allocs[alias[lv["name"]]] = (l.scale(__import__("fractions").Fraction(1, esz[alias[lv["name"]]])), n, f)
     return moves, grow_copy, allocs, None
 
 
